@@ -655,7 +655,7 @@ Lemma run_pool_grows sc st n bs : grows st (run_pool sc st n bs).
 Proof.
   unfold run_pool. pose proof (pool_bindings_nf sc bs 0) as Hn.
   destruct (pool_bindings sc bs 0) as [depth e1]. cbn [snd] in Hn.
-  apply grows_add. apply nf_app; split; [|apply nf_app; split; [exact Hn|]].
+  eexists. split; [cbn [add_errors with_pools m_errors]; reflexivity|]. apply nf_app; split; [|apply nf_app; split; [exact Hn|]].
   - destruct (aget n (m_pools st)); [apply nf_one; discriminate | apply nf_nil].
   - destruct (depth =? 0); [apply nf_one; discriminate | apply nf_nil].
 Qed.
@@ -752,4 +752,99 @@ Proof.
     cbn [mf_errors]. cbn [snd length] in Hg. destruct Hg as [es [He Hn]]; [lia|].
     apply has_out_of_fuel_false. rewrite He. cbn [init_state m_errors app]. exact Hn.
   - reflexivity.
+Qed.
+
+(* ================================================================ rule variables are expanded lazily *)
+
+(* a rule block stores its values unevaluated: whatever the scope holds when the rule is declared, the text is kept
+   verbatim (and is found again under the rule's name) *)
+Theorem rule_text_stored_verbatim sc st n binds :
+  lookup_rule (fst (run_rule sc st n binds)) n = Some (fst (rule_bindings binds [])) /\
+  forall sc', fst (rule_bindings binds []) = fst (rule_bindings binds []) /\ 
+              lookup_rule (fst (run_rule sc' st n binds)) n = Some (fst (rule_bindings binds [])).
+Proof.
+  assert (H : forall s, lookup_rule (fst (run_rule s st n binds)) n = Some (fst (rule_bindings binds []))).
+  { intros s. unfold run_rule. destruct (rule_bindings binds []) as [r e1]. cbn [fst]. apply lookup_rule_set_same. }
+  split; [apply H | intros sc'; split; [reflexivity | apply H]].
+Qed.
+
+Lemma special_command : ~ special_name nm_command.
+Proof. intros [H|[H|H]]; discriminate H. Qed.
+
+(* the command of a rule `command = $x` in a build context: the build-level binding of x if there is one, else the
+   value x has in the scope chain handed to the lookup *)
+Lemma dollar_x_command ex outs params r sc x :
+  x <> [] -> all_simple x -> ~ special_name x -> x <> nm_command ->
+  @aget bytes nm_command r = Some (36 :: x) -> @aget bytes x r = None ->
+  fst (lookup_named ex outs params r sc nm_command) =
+  match aget nm_command params with
+  | Some v => v
+  | None => match aget x params with Some v => v | None => lookup_binding sc x end
+  end.
+Proof.
+  intros Hne Hx Hsp Hxc Hc Hxr. rewrite lookup_named_context.
+  rewrite (lookup_order _ _ _ _ special_command). cbn [bx_params bx_rule bx_scopes mem_bytes].
+  destruct (aget nm_command params) as [v|]; [reflexivity|]. rewrite Hc.
+  destruct x as [|b name]; [congruence|].
+  replace (36 :: b :: name) with (36 :: (b :: name) ++ []) by (rewrite app_nil_r; reflexivity).
+  rewrite eval_simple_var_longest; [|exact Hx | exact I].
+  destruct (length r) as [|k] eqn:El; [destruct r; [discriminate Hc | discriminate El]|].
+  rewrite (lookup_order _ _ _ _ Hsp). cbn [bx_params bx_rule bx_scopes]. rewrite Hxr.
+  destruct (aget (b :: name) params) as [v|]; cbn; rewrite app_nil_r; reflexivity.
+Qed.
+
+(* rule_vars_lazy, on whole manifests: x is bound to v1, THEN the rule `command = $x` is declared, THEN x is
+   re-bound to v2, THEN a build statement uses the rule: the command is v2 (the rule text is evaluated at the
+   build statement against the scope at that point); with a build-level binding x = v3 the command is v3.
+   For every scope and manifest state the four decls start from, and every include stack / fuel. *)
+Theorem rule_vars_lazy wd fs fuel stack sc0 st0 x v1 v2 rn out :
+  x <> [] -> all_simple x -> ~ special_name x -> x <> nm_command -> no_dollar v1 -> no_dollar v2 ->
+  exists cs c,
+    m_commands (snd (run_decls fuel stack wd fs
+                       [DBinding x v1; DRule rn [BBind nm_command (36 :: x)]; DBinding x v2; DBuild [out] rn [] [] [] []]
+                       (sc0, st0))) = cs ++ [c] /\ c_command c = v2.
+Proof.
+  intros Hne Hx Hsp Hxc Hv1 Hv2.
+  rewrite !run_decls_cons, run_decls_nil. cbn [step run_simple].
+  unfold eval_in_scope at 1. rewrite (eval_string_literal _ _ v1 Hv1).
+  cbn [step run_simple]. unfold run_rule. cbn [rule_bindings is_rule_var_name].
+  replace (is_rule_var_name nm_command) with true by reflexivity. cbn [rule_bindings aset fst snd].
+  cbn [step run_simple]. unfold eval_in_scope at 1. rewrite (eval_string_literal _ _ v2 Hv2).
+  cbn [step run_simple].
+  match goal with |- context [run_build wd ?sc ?st [out] rn [] [] [] []] =>
+    destruct (run_build_command wd sc st [out] rn [] [] [] []) as [c [Hm [Hc _]]]; exists (m_commands st), c end.
+  cbn [snd]. split; [exact Hm|]. rewrite Hc. clear Hm Hc.
+  unfold resolve_rule. rewrite lookup_rule_set_var, lookup_rule_set_same. cbn [fst snd build_bindings].
+  rewrite (dollar_x_command _ _ _ _ _ x); try assumption.
+  - cbn [aget]. apply lookup_binding_set_same.
+  - cbn [aget]. rewrite bytes_eqb_refl. reflexivity.
+  - cbn [aget]. apply bytes_eqb_neq in Hxc. rewrite Hxc. reflexivity.
+Qed.
+
+Theorem build_level_binding_shadows wd fs fuel stack sc0 st0 x v1 v2 v3 rn out :
+  x <> [] -> all_simple x -> ~ special_name x -> x <> nm_command -> no_dollar v1 -> no_dollar v2 -> no_dollar v3 ->
+  exists cs c,
+    m_commands (snd (run_decls fuel stack wd fs
+                       [DBinding x v1; DRule rn [BBind nm_command (36 :: x)]; DBinding x v2;
+                        DBuild [out] rn [] [] [] [BBind x v3]]
+                       (sc0, st0))) = cs ++ [c] /\ c_command c = v3.
+Proof.
+  intros Hne Hx Hsp Hxc Hv1 Hv2 Hv3.
+  rewrite !run_decls_cons, run_decls_nil. cbn [step run_simple].
+  unfold eval_in_scope at 1. rewrite (eval_string_literal _ _ v1 Hv1).
+  cbn [step run_simple]. unfold run_rule. cbn [rule_bindings is_rule_var_name].
+  replace (is_rule_var_name nm_command) with true by reflexivity. cbn [rule_bindings aset fst snd].
+  cbn [step run_simple]. unfold eval_in_scope at 1. rewrite (eval_string_literal _ _ v2 Hv2).
+  cbn [step run_simple].
+  match goal with |- context [run_build wd ?sc ?st [out] rn [] [] [] [BBind x v3]] =>
+    destruct (run_build_command wd sc st [out] rn [] [] [] [BBind x v3]) as [c [Hm [Hc _]]]; exists (m_commands st), c end.
+  cbn [snd]. split; [exact Hm|]. rewrite Hc. clear Hm Hc.
+  unfold resolve_rule. rewrite lookup_rule_set_var, lookup_rule_set_same. cbn [fst snd build_bindings].
+  unfold eval_in_scope. rewrite (eval_string_literal _ _ v3 Hv3). cbn [fst snd aset build_bindings].
+  rewrite (dollar_x_command _ _ _ _ _ x); try assumption.
+  - cbn [aget]. apply bytes_eqb_neq in Hxc. assert (Hcx : bytes_eqb nm_command x = false).
+    { apply bytes_eqb_neq. intros E. apply bytes_eqb_neq in Hxc. congruence. }
+    rewrite Hcx, bytes_eqb_refl. reflexivity.
+  - cbn [aget]. rewrite bytes_eqb_refl. reflexivity.
+  - cbn [aget]. apply bytes_eqb_neq in Hxc. rewrite Hxc. reflexivity.
 Qed.
